@@ -1,16 +1,21 @@
-mod behave;
-mod c37;
-mod c38;
-mod c39;
-mod c40;
-mod c41;
-mod c42;
-mod c43;
-mod c44;
-mod tablegen;
-mod util;
+use chk_kad::*;
 
 fn main() {
+    // `chk-kad --write-seeds <dir>`: (re)generate the golden seed corpus of the fuzz target kad_wire
+    let args: Vec<String> = std::env::args().collect();
+    if args.get(1).map(|s| s == "--write-seeds").unwrap_or(false) {
+        let dir = std::path::PathBuf::from(args.get(2).cloned().unwrap_or_else(|| "/verif/fuzz/seeds".into()));
+        match fuzzapi::write_seeds(&dir) {
+            Ok(n) => {
+                println!("{n} seed files written under {}", dir.display());
+                return;
+            }
+            Err(e) => {
+                eprintln!("cannot write seeds: {e}");
+                std::process::exit(2);
+            }
+        }
+    }
     vcore::runner::main(&[
         ("C37", c37::run),
         ("C38", c38::run),
